@@ -140,8 +140,88 @@ def _install() -> None:
     # returns (no cancellation timeout: kopf can only poll for its exit; with one: it is cancelled meanwhile).
     orig_make_daemon = observe.Observer._make_daemon
 
-    def _make_daemon(self: Any, h: dict) -> Any:
+    # And one more: "drag" — works until it is told to stop (flag or cancellation), then needs `after` seconds of clean-up
+    # that cannot be cut short: cancellations during it are swallowed (at most `max_ignored` of them), then it returns.
+    # With a cancellation timeout shorter than the clean-up the framework gives up on it while it is still alive, and it
+    # exits later on its own — the only behaviour in which an ABANDONED invocation is seen to end.
+    def _make_drag(self: Any, h: dict) -> Any:
+        import asyncio
         d = h.get("daemon", {})
+        after, max_ignored = float(d.get("after", 2.0)), int(d.get("max_ignored", 3))
+
+        async def daemon(**kwargs: Any) -> Any:
+            if self._muted():
+                raise asyncio.CancelledError()
+            stopped = kwargs["stopped"]
+            rec = self._base_rec(h, kwargs)
+            rec["mode"] = "drag"
+            key = (rec["uid"] or "", h["id"])
+            rec["n"] = self.counters.get(key, 0)
+            self.counters[key] = rec["n"] + 1
+            self.calls.append(rec)
+            began = None
+            ignored = 0
+            try:
+                while True:
+                    try:
+                        if began is None:
+                            await stopped.wait()
+                            began = self.sim.now()
+                            rec["stop_reason"] = repr(getattr(stopped, "reason", None))
+                        left = began + after - self.sim.now()
+                        if left <= 0:
+                            break
+                        await asyncio.sleep(left)
+                    except asyncio.CancelledError:
+                        if self._muted() or ignored >= max_ignored:
+                            rec["outcome"] = "cancelled"
+                            raise
+                        ignored += 1
+                        rec["ignored_cancellations"] = ignored
+                        if began is None:
+                            began = self.sim.now()
+                rec["outcome"] = "exited-after-slow-cleanup"
+                return None
+            finally:
+                rec["t_end"] = self.sim.now()
+                rec["muted_end"] = self._muted()
+
+        daemon.__name__ = daemon.__qualname__ = h["id"]
+        return daemon
+
+
+    def _make_daemon(self: Any, h: dict) -> Any:
+        # every daemon invocation is watched from outside its function: `flag_t` = the instant at which the framework told
+        # THIS invocation to stop (its own `stopped` kwarg became set); absent = never told so far (`flag_watch` marks
+        # records that carry the observation). Read by the oracle: an invocation never told to stop was not abandoned.
+        inner = _make_daemon_inner(self, h)
+        import asyncio
+
+        async def watched(**kwargs: Any) -> Any:
+            n0 = len(self.calls)
+            stopped = kwargs["stopped"]
+
+            async def watch() -> None:
+                rec = self.calls[n0] if len(self.calls) > n0 and self.calls[n0]["id"] == h["id"] else None
+                if rec is None:
+                    return
+                rec["flag_watch"] = True
+                await stopped.wait()
+                rec.setdefault("flag_t", self.sim.now())
+
+            task = asyncio.get_running_loop().create_task(watch())
+            try:
+                return await inner(**kwargs)
+            finally:
+                task.cancel()
+
+        watched.__name__ = watched.__qualname__ = h["id"]
+        return watched
+
+    def _make_daemon_inner(self: Any, h: dict) -> Any:
+        d = h.get("daemon", {})
+        if d.get("mode") == "drag":
+            return _make_drag(self, h)
         if d.get("mode") != "linger":
             return orig_make_daemon(self, h)
         import asyncio
